@@ -10,7 +10,7 @@ Open Scope N_scope.
 (* Whatever a peer sends — every combination of present / absent / empty / inconsistent fields, any
    signatures (the [ok] booleans), any hash classes and views — in every replica state ([env]),
    for all three schemes, cache on and off, plain and aggregate QCs, with and without the Kauri
-   tree and whether or not the peer id is known, the composed handler does not panic. *)
+   tree, with and without the latency matrix (and any sender id, inside or outside it) and whether or not the peer id is known, the composed handler does not panic. *)
 Theorem C10_never_panics : forall (c : cfg) (e : env) (ctx_ok : bool) (m : wmsg),
   c_g c = all_guards -> handle c e ctx_ok m <> Panic.
 Proof. exact never_panics. Qed.
@@ -45,7 +45,7 @@ Theorem C10_qc_equals_total : forall (g : guards) (vh_eq a b same_bytes : bool),
 Proof. intros g vh a b same G. split; [exact (qc_equals_total g vh a b same G) | exact (qc_equals_nil_mismatch g vh a b same G)]. Qed.
 Print Assumptions C10_qc_equals_total.
 
-(* The full statement is false for the tree as found: each of the nine guards is needed.
+(* The full statement is false for the tree as found: each of the ten guards is needed.
    With only that guard removed, a concrete wire message (or nil converter argument) panics. *)
 Theorem C10_never_panics_unguarded_refuted :
   handle (mkcfg Ecdsa false false (set_guard 0 false all_guards)) env_all true w_srv_block = Panic /\
@@ -57,7 +57,10 @@ Theorem C10_never_panics_unguarded_refuted :
   handle (mkcfg Ecdsa true false (set_guard 6 false all_guards)) env_all true w_cache = Panic /\
   handle (mkcfg Bls false false (set_guard 7 false all_guards)) env_all false w_bitfield = Panic /\
   handle (mkcfg Ecdsa false true (set_guard 8 false all_guards)) env_signed_hq true w_equals = Panic /\
-  handle (mkcfg Ecdsa false true (set_guard 8 false all_guards)) env_unsigned_hq true w_equals' = Panic.
+  handle (mkcfg Ecdsa false true (set_guard 8 false all_guards)) env_unsigned_hq true w_equals' = Panic /\
+  handle (mkcfg_lat Ecdsa false (set_guard 9 false all_guards)) env_outside true w_lat_newview = Panic /\
+  handle (mkcfg_lat Ecdsa false (set_guard 9 false all_guards)) env_outside false w_lat_timeout = Panic /\
+  handle (mkcfg_lat Ecdsa true (set_guard 9 false all_guards)) env_outside true w_lat_propose = Panic.
 Proof. exact guards_needed. Qed.
 Print Assumptions C10_never_panics_unguarded_refuted.
 
